@@ -34,6 +34,13 @@ class FalsyUserErr(UserErr):
         return 0
 
 
+class UnprintableUserErr(UserErr):
+    """A user exception whose __str__ itself raises (it formats a field that is missing, say)."""
+
+    def __str__(self) -> str:
+        raise RuntimeError("this exception cannot be printed")
+
+
 class Env:
     """Instrumentation shared by the generated functions of one case."""
 
@@ -54,7 +61,7 @@ class Env:
 
     def err(self, tag: str) -> UserErr:
         if tag not in self.errs:
-            self.errs[tag] = FalsyUserErr(tag) if tag.startswith("Z") else UserErr(tag)
+            self.errs[tag] = FalsyUserErr(tag) if tag.startswith("Z") else (UnprintableUserErr(tag) if tag.startswith("S") else UserErr(tag))
         return self.errs[tag]
 
 
